@@ -2952,6 +2952,21 @@ class Transport(threading.Thread, ClosingContextManager):
         self._expect_packet(MSG_NEWKEYS)
 
     def _auth_trigger(self):
+        if (
+            self.server_mode
+            and threading.current_thread() is self
+            and self.active
+            and not self.clear_to_send.is_set()
+        ):
+            # USERAUTH_SUCCESS is being held back behind a running key
+            # exchange (see `_send_or_defer`).  Delayed compression starts
+            # with the packet after it, not with the rest of the exchange:
+            # switch it on when the held back messages are written.
+            self._kex_deferred.append(self._auth_trigger_now)
+            return
+        self._auth_trigger_now()
+
+    def _auth_trigger_now(self):
         self.authenticated = True
         # delayed initiation of compression
         if self.local_compression == "zlib@openssh.com":
@@ -3010,7 +3025,10 @@ class Transport(threading.Thread, ClosingContextManager):
             # first whatever this thread had to hold back during the exchange
             deferred, self._kex_deferred = self._kex_deferred, []
             for msg in deferred:
-                self._send_message(msg)
+                if callable(msg):
+                    msg()
+                else:
+                    self._send_message(msg)
             self.clear_to_send.set()
         finally:
             self.clear_to_send_lock.release()
